@@ -330,3 +330,53 @@ def validname_effects_only(ctx):
         f.rule = r.rule
         f.key = f.key.replace("R-VALIDNAME/", "R-VALIDNAME(noeffect)/")
     return r
+
+
+def normbody(pid):
+    """R-NORMBODY: the one normaliser gives every spelling of a path the same meaning only if every name it returns
+    went through the component parser: the returned vector is the one it built itself, and whatever is pushed on it
+    is the payload of a `Component::Normal` the parser yielded (so '.', '..', the root and doubled separators can
+    never come out as names)."""
+    def run(ctx):
+        res = RuleResult("R-NORMBODY(%s)" % pid, "name_chain_from_path returns only the vector it fills from Path::components(): every Ok payload is that vector, every element pushed is a Component::Normal payload")
+        f = ctx.fx.fns.get(ctx.table("norm").get("normaliser", "internal::path::name_chain_from_path"))
+        if f is None:
+            res.gone.append("name_chain_from_path")
+            return res
+        pr = Prov(f)
+        v = view(ctx, f)
+        n = 0
+        names = {nm: l for l, nm in f.debug_names().items()}
+        built = set()
+        for l in range(1, len(f.locals)):
+            ds = [pr._def(d, 0, ()) for d in pr.defs.get(l, [])]
+            if ds and all(re.match(r"^Vec::(new|with_capacity)\(", x) for x in ds):
+                built.add(l)
+        dn = f.debug_names()
+        for bb, blk in enumerate(f.blocks):
+            if blk["cleanup"]:
+                continue
+            for i, st in enumerate(blk["stmts"]):
+                if st["s"] == "assign" and st["place"]["local"] == 0 and not st["place"]["proj"] and st["rv"]["r"] == "aggregate" and st["rv"].get("variant") == "Ok":
+                    n += 1
+                    val = pr._def((bb, i, st), 0, ())
+                    m = re.match(r"^Result::Ok\(var:(\w+)\)$", val)
+                    if m and names.get(m.group(1)) in built:
+                        res.ok({"function": f.path, "ok_payload": val[:60], "line": st["span"]["line"]}, nontrivial=True)
+                    else:
+                        res.fail(Finding(res.rule, "R-NORMBODY/%s/ok-payload-not-the-parsed-vector" % f.path, "name_chain_from_path returns %s, which is not the vector filled from Path::components(): this spelling skips the component parser, so '.', '..' or an empty component can come out as an object name while every other spelling of the same path is normalised" % val[:100], f, st["span"]))
+        for bb, c in sorted(v.calls.items()):
+            if re.search(r"Vec::<T, A>::(push|insert|extend|extend_from_slice|append)$", c.name) and c.term["args"]:
+                a0 = pr.operand(c.term["args"][0])
+                m = re.match(r"^var:(\w+)$", a0)
+                if not (m and names.get(m.group(1)) in built):
+                    continue
+                n += 1
+                val = pr.operand(c.term["args"][-1])
+                if re.search(r"Path::components\(param:\w+\).* as Normal\.0", val):
+                    res.ok({"function": f.path, "pushed": val[-70:], "line": c.line}, nontrivial=True)
+                else:
+                    res.fail(Finding(res.rule, "R-NORMBODY/%s/pushed-name-not-a-normal-component" % f.path, "a name is added to the chain that is not the payload of a Component::Normal yielded by Path::components() (%s)" % val[:100], f, c.term["span"]))
+        res.floor("Ok payloads and pushes of the normaliser", n, ctx.table("floors").get("normbody_sites", 0))
+        return res
+    return run
